@@ -133,6 +133,7 @@ class Collector:
 def _worker(args):
     modname, spec, prop_id, tier, seed = args
     os.environ.setdefault("PYTHONHASHSEED", "0")
+    ctx = None
     try:
         mod = importlib.import_module(modname)
         with scratch.workdir(prop_id) as wd:
@@ -143,7 +144,17 @@ def _worker(args):
         json.loads(canon({"s": out["samples"], "c": out["classes"], "x": out["extra"]}))
         return out
     except BaseException:
-        return {"error": traceback.format_exc(), "spec": spec}
+        err = {"error": traceback.format_exc(), "spec": spec}
+        # violations established before the harness tripped stay true (a tree that breaks the property often
+        # breaks the harness' own assumptions a moment later)
+        try:
+            if ctx is not None and ctx.violations:
+                part = ctx.export()
+                json.loads(canon({"s": part["samples"], "c": part["classes"], "x": part["extra"]}))
+                err["partial"] = part
+        except BaseException:
+            pass
+        return err
 
 
 def _merge(results):
@@ -339,9 +350,14 @@ def main(argv=None):
         errs = [r for r in results if "error" in r]
         if errs:
             print(errs[0]["error"], file=sys.stderr)
-            print("HARNESS-ERROR property=%s worker failed (spec=%s)" %
-                  (prop_id, canon(errs[0]["spec"])[:300]))
-            return 2
+            partial = [r["partial"] for r in errs if "partial" in r]
+            if not partial:
+                print("HARNESS-ERROR property=%s worker failed (spec=%s)" %
+                      (prop_id, canon(errs[0]["spec"])[:300]))
+                return 2
+            print("HARNESS-NOTE property=%s %d worker(s) failed after recording violations; those are reported "
+                  "(spec=%s)" % (prop_id, len(errs), canon(errs[0]["spec"])[:200]))
+            results = [r for r in results if "error" not in r] + partial
         tot = _merge(results)
 
         # regression corpus (saved failing inputs of fixed / known defects) replayed every run
